@@ -491,6 +491,40 @@ def find_lookup(F, f, O, operand, R, depth=0):
     return None
 
 
+_DRIVES = {}
+
+
+def param_drives_recursion(F, scc_of, g, argpos):
+    """parameter number `argpos` of function g (or something derived from it) is handed to a call that stays inside
+    g's recursive component, or g is opaque to us"""
+    key = (g, argpos)
+    if key in _DRIVES:
+        return _DRIVES[key]
+    f2 = F.fns.get(g)
+    res = True
+    if f2 is not None and f2.mir and g in scc_of:
+        res = False
+        try:
+            O2 = Origins(FnFlow(f2))
+            for c2 in f2.calls:
+                if not any(scc_of.get(t) == scc_of[g] for t in (c2.local_target or [])):
+                    continue
+                for a2 in c2.term["args"]:
+                    if any(o[0] == "param" and o[1] == argpos + 1 for o in O2.of_operand(a2)):
+                        res = True
+                        break
+                if res:
+                    break
+            # closures created in g capture its parameters: when one of them is part of the cycle, the parameter may
+            # be recursed on there (conservative)
+            if not res and any(t.startswith(g + "::{closure") and scc_of.get(t) == scc_of[g] for t in scc_of):
+                res = True
+        except Exception:
+            res = True
+    _DRIVES[key] = res
+    return res
+
+
 def resolve_edges(F, scc_of, reach):
     """call sites inside recursive SCCs whose argument comes out of a lookup in a user-keyed table"""
     R = lookup_returning(F, [g for g in sorted(reach) if not scalar_output(F.fns[g])])
@@ -507,9 +541,12 @@ def resolve_edges(F, scc_of, reach):
                 flow = FnFlow(f)
                 O = Origins(flow, keep=not_residual)
             looked = None
-            for a in c.term["args"]:
-                looked = find_lookup(F, f, O, a, R)
-                if looked:
+            for ai, a in enumerate(c.term["args"]):
+                lk = find_lookup(F, f, O, a, R)
+                # .. and the callee RECURSES ON that argument (it, or a part of it, reaches a call that stays inside
+                # the cycle): a looked-up value that the callee merely stores in its result drives no recursion
+                if lk and any(param_drives_recursion(F, scc_of, t, ai) for t in tgts):
+                    looked = lk
                     break
             if looked:
                 yield f, flow, c, tgts, ("call", looked, c.bb)
@@ -909,6 +946,8 @@ def run(cx, rep):
     # ---------------------------------------------------------------- C04.6
     rep.rule("C04.6", "the converter never asks the engine a semantic question while definitions are under construction")
     converter_typestate_rule(cx, rep, "C04.6", sccs_all=None)
+    rep.rule("C04.8", "a vector indexed by the counter of a counted loop is as long as the loop's bound")
+    counted_index_rule(cx, rep, "C04.8")
     rep.rule("C04.7", "an Anchor pairs a span with the file the span was read in (syntax and its file travel together)")
     anchor_colocation_rule(cx, rep, "C04.7")
 
@@ -1279,3 +1318,152 @@ def anchor_colocation_rule(cx, rep, rid):
                    "%s hands syntax of the file it is working on to %s together with a file that is not its own file / anchor parameter (it comes from a lookup or an import resolution): an Anchor built from the pair names that file with byte offsets of this one, so a diagnostic reports a range that does not lie inside the file it names (`type X = import(\"./other\").NS.Foo` with NS missing)" % (g, "an Anchor" if what == "Anchor" else what),
                    "%s:%s" % (f.file, n.get("line")), sample={"fn": g, "to": callee})
     rep.floor(rid, "places where syntax and a file / anchor are paired", n_sites, 40)
+
+
+def counted_index_rule(cx, rep, rid):
+    hits = counted_index_sites(cx.rs, lambda f: "/src/subtyping/" in (f.file or ""))
+    for key, ok, msg, loc, sample in hits:
+        rep.ob(rid, key, ok, msg, loc, sample=sample)
+    rep.ob(rid, "scanned", True, sample={"indexings_by_a_loop_counter": len(hits)})
+    if cx.canary is not None:
+        ch = counted_index_sites(cx.canary, lambda f: True)
+        bad = {k.split("/")[0] for k, ok, _, _, _ in ch if not ok}
+        good = {k.split("/")[0] for k, ok, _, _, _ in ch if ok}
+        rep.ob(rid, "control/canary-counted-index", "counted_index_drift" in bad and "counted_index_tied" in good and "counted_index_tied" not in bad,
+               "positive control: the canary crate's drifting copy must be reported and its tied twin must not (reported: %s)" % sorted(bad), "canary/rs/src/lib.rs")
+
+
+def counted_index_sites(F, select):
+    """`v[i]` panics when i >= v.len().  In the recursive emptiness procedures vectors are padded, cloned and indexed
+    under a running bound (`len`), and the bound and the vector can drift apart without any test noticing: padding a
+    COPY while the loop still clones the original (`let mut s = prefix_items.clone(); s[i] = d`) indexes past the end
+    exactly when the padding happened (`[string, ...number[]] extends [string, string]` aborts the compiler).
+    Decided for the counted loops `for i in 0..N` of the subtyping engine: every `v[i]` inside is either guarded by
+    `i < v.len()` (through a local), or N is tied to v: N starts as the length of v (or of the vector v is a clone
+    of), and wherever N is raised (`N = M`) a loop `for _ in N..M` pushes onto v (or onto the vector v is cloned
+    from)."""
+    out = []
+    n = 0
+    for g, t in sorted(F.hir.items()):
+        f = F.fns.get(g)
+        if f is None or f.kind == "Closure" or not select(f):
+            continue
+        body = t["body"]
+        inits = {}
+        assigns = {}
+        for x in walk(body):
+            if x["k"] == "LetStmt" and x.get("init") is not None and x["pat"]["k"] == "P.Binding":
+                inits.setdefault(x["pat"]["lid"], []).append(x["init"])
+            if x["k"] == "Assign" and x["l"]["k"] == "Path" and x["l"].get("res") == "local":
+                assigns.setdefault(x["l"]["lid"], []).append(x["r"])
+
+        def strip(e):
+            while e["k"] in ("AddrOf", "Unary", "Cast", "DropTemps", "Paren"):
+                e = e["e"]
+            return e
+
+        def vec_key(e):
+            """identity of a vector expression: a local, or a field path"""
+            e = strip(e)
+            if e["k"] == "Path" and e.get("res") == "local":
+                return ("l", e["lid"])
+            if e["k"] == "Field":
+                b = vec_key(e["e"])
+                return ("f", b, e["name"]) if b else None
+            return None
+
+        def origin(k):
+            """the vector a local was cloned from (one step), else itself"""
+            if k and k[0] == "l":
+                for i_ in inits.get(k[1], []):
+                    i2 = strip(i_)
+                    if i2["k"] == "MethodCall" and i2["method"] in ("clone", "to_vec", "to_owned"):
+                        return vec_key(i2["recv"]) or k
+            return k
+
+        def len_of(e):
+            """the vector whose length the expression is (directly or through one local)"""
+            e = strip(e)
+            if e["k"] == "MethodCall" and e["method"] == "len":
+                return vec_key(e["recv"])
+            if e["k"] == "Path" and e.get("res") == "local":
+                srcs = {len_of(i_) for i_ in inits.get(e["lid"], [])}
+                if len(srcs) == 1:
+                    return next(iter(srcs))
+            return None
+        # push loops: (vector key, range start local, range end local)
+        loops = []
+        for m in walk(body):
+            if m["k"] == "Match" and m.get("src") == "ForLoopDesugar":
+                rng = next((s_ for s_ in walk(m["scrut"]) if s_["k"] == "Struct" and "Range" in (s_.get("ty") or s_.get("def") or "")), None)
+                if rng is None:
+                    continue
+                fl = {x.get("name"): (x.get("e") or x.get("expr")) for x in rng.get("fields", [])}
+                ivar = next((b["lid"] for a in walk(m) if a["k"] == "Arm" for b in walk(a["pat"]) if b["k"] == "P.Binding" and (b.get("ty") or "") in ("usize", "i32", "u32", "i64")), None)
+                loops.append((m, fl.get("start"), fl.get("end"), ivar))
+        pads = []
+        for m, st_, en_, ivar in loops:
+            for x in walk(m):
+                if x["k"] == "MethodCall" and x["method"] in ("push", "resize"):
+                    k = vec_key(x["recv"])
+                    if k and st_ is not None and en_ is not None:
+                        pads.append((k, strip(st_), strip(en_)))
+        for x in walk(body):
+            if x["k"] == "MethodCall" and x["method"] == "resize" and x["args"]:
+                k = vec_key(x["recv"])
+                if k:
+                    pads.append((k, None, strip(x["args"][0])))
+        for m, st_, en_, ivar in loops:
+            if st_ is None or en_ is None or ivar is None:
+                continue
+            s0 = strip(st_)
+            if not (s0["k"] == "Lit" and str(s0.get("v")) == "0"):
+                continue
+            N = strip(en_)
+            for x in walk(m):
+                if x["k"] != "Index" or "e" not in x:
+                    continue
+                ix = strip(x["i"])
+                if not (ix["k"] == "Path" and ix.get("lid") == ivar):
+                    continue
+                vk = vec_key(x["e"])
+                if vk is None:
+                    continue
+                n += 1
+                ok = False
+                why = ""
+                # (1) the bound IS the length
+                if len_of(N) in (vk, origin(vk)) and not (N["k"] == "Path" and assigns.get(N.get("lid"))):
+                    ok = True
+                # (2) a guard `i < K` with K the length of this vector, on the way to the index
+                if not ok:
+                    for c in walk(m):
+                        if c["k"] == "If" and any(y is x for y in walk(c.get("then") or {})):
+                            cd = c["cond"]
+                            if cd["k"] == "Binary" and cd.get("op") == "Lt" and strip(cd["l"])["k"] == "Path" and strip(cd["l"]).get("lid") == ivar and len_of(cd["r"]) in (vk, origin(vk)):
+                                ok = True
+                # (3) the bound starts as the length and is only raised together with a padding of this vector
+                if not ok and N["k"] == "Path" and len_of(N) is not None and origin(len_of(N)) == origin(vk) or (not ok and N["k"] == "Path" and len_of(N) in (vk, origin(vk))):
+                    raised = assigns.get(N["lid"], [])
+                    good = True
+                    for r_ in raised:
+                        r2 = strip(r_)
+                        padded = any(k in (vk, origin(vk)) and en is not None and en["k"] == "Path" and r2["k"] == "Path" and en.get("lid") == r2.get("lid") for k, st2, en in pads)
+                        if not padded:
+                            good = False
+                            why = "the bound is raised to `%s` without padding this vector" % (r2.get("name") or "?")
+                    ok = good
+                # (4) the vector was padded to max(its length, the bound's vector's length) before the loop
+                if not ok and len_of(N) is not None:
+                    for k, st2, en in pads:
+                        if k in (vk, origin(vk)) and en is not None and en["k"] == "Path":
+                            for i_ in inits.get(en.get("lid"), []):
+                                i2 = strip(i_)
+                                if i2["k"] in ("Call", "MethodCall") and ((i2.get("callee") or "").endswith("::max") or i2.get("method") == "max"):
+                                    margs = ([i2["recv"]] + i2["args"]) if i2["k"] == "MethodCall" else i2["args"]
+                                    if any(len_of(a_) == len_of(N) for a_ in margs):
+                                        ok = True
+                out.append(("%s/%s[%s]" % (g.rsplit("::", 1)[-1], (strip(x["e"]).get("name") or "?"), "i"), ok,
+                       "%s indexes `%s` with the counter of a loop whose bound is not tied to that vector's length (%s): when the bound exceeds the length the compiler aborts with an index-out-of-bounds panic instead of answering" % (g, strip(x["e"]).get("name") or "?", why or "no guard, no padding"),
+                       "%s:%s" % (f.file, x["line"]), {"fn": g}))
+    return out
